@@ -102,6 +102,8 @@ impl BitFont {
     pub fn calculate_checksum(&mut self) {
         let mut crc = 0;
         for ch in 0..self.length {
+            #[cfg(icy_engine_verif)]
+            crate::verif::tick(1);
             if let Some(glyph) = char::from_u32(ch as u32).and_then(|ch| self.get_glyph(ch)) {
                 for b in &glyph.data {
                     crc = update_crc32(crc, *b);
